@@ -63,6 +63,21 @@ def build(rng, tier):
         inst = f"yjoin_{j}"
         ops = [f"eng new {inst} yjoin par {a}"] + engcheck.load_ops(inst, jinp) + [f"eng runin {inst} {b}", f"eng dump {inst}", f"eng runin {inst} {b}", f"eng dump {inst}"]
         cases.append(engcheck.Case("yjoin", inst, ops, {"inp": jinp, "union": jinp, "kind": "pools-join-stress", "abc": (a, b, b), "no_model": True}))
+    # (1d) programs that generate their own data (no loads), used by the fresh-process step `fresh_process_step` below
+    outer = {"rels": [{"arity": 1}, {"arity": 2}, {"arity": 2}, {"arity": 1}, {"arity": 2}],
+             "rules": [{"heads": [(0, [("var", 0)])], "body": [("for", 0, ("range", 0, 70))]},
+                       {"heads": [(1, [("var", 0), ("var", 1)])], "body": [("cl", 0, [("v", 0)], []), ("cl", 0, [("v", 1)], []), ("if", ("eq", ("add", ("var", 0), 1), ("var", 1)))]},
+                       {"heads": [(2, [("var", 0), ("var", 1)])], "body": [("cl", 1, [("v", 0), ("v", 1)], [])]},
+                       {"heads": [(2, [("var", 0), ("var", 2)])], "body": [("cl", 2, [("v", 0), ("v", 1)], []), ("cl", 1, [("v", 1), ("v", 2)], [])]},
+                       {"heads": [(3, [("var", 0)])], "body": [("cl", 2, [("v", 0), ("e", 69)], [])]},
+                       {"heads": [(4, [("var", 0), ("var", 1)])], "body": [("cl", 3, [("v", 0)], []), ("cl", 3, [("v", 1)], []), ("if", ("eq", ("add", ("var", 0), 2), ("var", 1)))]},
+                       {"heads": [(4, [("var", 0), ("var", 2)])], "body": [("cl", 4, [("v", 0), ("v", 1)], []), ("cl", 4, [("v", 1), ("v", 2)], [])]}]}
+    inner = {"rels": [{"arity": 1}, {"arity": 2}],
+             "rules": [{"heads": [(0, [("var", 0)])], "body": [("for", 0, ("range", 0, 12))]},
+                       {"heads": [(1, [("var", 0), ("var", 1)])], "body": [("cl", 0, [("v", 0)], []), ("cl", 0, [("v", 1)], []), ("if", ("lt", ("var", 0), ("var", 1)))]}]}
+    for pid, q in (("youter", outer), ("yinner", inner)):
+        progs[pid] = q; PROGS[pid] = q
+        mods.append((pid, eng.rs_module(pid, q, macro="ascent_par")))
     # (2) several instances, of the same and of different generated types, serial and parallel, running at the same time
     pids = list(progs)
     for g in range(6 if tier == "quick" else 40):
@@ -112,9 +127,34 @@ def canon(c, out):
     return out
 
 
+def fresh_process_step(r, d, progs, bins, tier):
+    """instances CONSTRUCTED and run at the same time in pools of different sizes, each scenario in a FRESH process (the process-wide shard count
+    is decided by the first parallel index ever created: what a later, larger pool does must not reach an instance that is already running)"""
+    from . import tieb
+    if not bins or "youter" not in bins: return
+    specs = {pid: engcheck.spec_sets(PROGS[pid], {}) for pid in ("youter", "yinner")}
+    n = 0
+    for (pa, pb) in ([(1, 8), (2, 16), (1, 16)] if tier == "quick" else [(1, 8), (2, 16), (1, 16), (1, 4), (4, 16), (2, 8)]):
+        for delay in ([0, 1, 2, 4, 8, 16, 32] if tier == "quick" else [0, 1, 2, 3, 4, 6, 8, 12, 16, 24, 32, 48, 64]):
+            lines = [f"eng prog youter {eng.sx_prog(PROGS['youter'])}", f"eng prog yinner {eng.sx_prog(PROGS['yinner'])}",
+                     f"eng concmk o youter {pa} 0 i yinner {pb} {delay}", "eng dump o", "eng dump i"]
+            out = tieb.run_impl(bins, lines, ["youter"] * len(lines), timeout=300)
+            n += 1
+            why = None
+            if out[2] != "ok": why = f"`{lines[2]}` -> {out[2]}"
+            else:
+                for pid, dump in (("youter", out[3]), ("yinner", out[4])):
+                    w = engcheck.check_sets(PROGS[pid], dump, specs[pid])
+                    if w: why = f"{pid} constructed and run concurrently (pools {pa} / {pb}, second thread {delay} ms later): {w}"; break
+            d.evals += 1
+            if why: d.failing.append({"input": "\n".join(lines), "impl": "\n".join(str(x) for x in out), "model": None, "why": why})
+    r.cov["fresh_process_scenarios"] = n
+
+
 def check(tier, replay=None):
-    return engcheck.run_property("C20", tier, modules=["AscentVerif.Props.C20"], theorems=THEOREMS, trusted=TRUSTED, group="c20",
+    return engcheck.run_property("C20", tier, extra=fresh_process_step, modules=["AscentVerif.Props.C20"], theorems=THEOREMS, trusted=TRUSTED, group="c20",
                                  build=build, oracle=oracle, canon=canon, nbins=1, what="instances across pools and concurrent instances",
                                  rule="parallel programs constructed / run / re-run (after pushes) in pools of different sizes (a,b,c) in {1,2,3,8,16}^3; groups of instances of the "
                                       "same and of different generated types run at the same time on OS threads; every instance must compute what it computes alone; stress programs with 1500 rows "
-                                      "(per-thread no-index shards) and 480 keyed rows (hash-sharded indices) in pools of 3, 5, 6, 7 threads created in pools of other sizes")
+                                      "(per-thread no-index shards) and 480 keyed rows (hash-sharded indices) in pools of 3, 5, 6, 7 threads created in pools of other sizes; "
+                                      "fresh-process scenarios: two instances constructed and run at the same time in pools of different sizes, the second 0-32 ms later")
